@@ -287,6 +287,24 @@ def campaign(c):
         else:
             c.violation('payload:bufio-failed', 'bufio program failed: %s' % (impl['outcome'],), dict(src=src.decode()[:2000]))
         c.case(('bufio', i), dict(kind='bufio', reads=reads, n=len(data)) if i % 10 == 0 else None)
+    # characters that editors, terminals and text tools like to add, drop or normalise (byte order mark / zero-width no-break space,
+    # zero-width space and joiners, soft hyphen, no-break space, line and paragraph separators, next line, bidi marks, the
+    # replacement character, combining marks, an astral code point) at the start, in the middle and at the end of a text literal,
+    # alone and next to a hex section: text contributes its source bytes
+    for cp in (0xFEFF, 0x200B, 0x200C, 0x200D, 0x00AD, 0x00A0, 0x2028, 0x2029, 0x0085, 0x200E, 0x200F, 0x202E, 0xFFFD, 0x0301, 0x1F600, 0x2060, 0x180E, 0xFFFE, 0x00B7):
+        ch = chr(cp)
+        for k, (name, hdr, mk) in enumerate(BUILDERS):
+            if k % 4 != cp % 4: continue
+            for txt, want in ((ch + 'AB', None), ('A' + ch + 'B', None), ('AB' + ch, None), (ch, None), (ch + ch, None), ('A' + ch + '|41|' + ch, ('A' + ch).encode('utf-8') + b'A' + ch.encode('utf-8'))):
+                want = want if want is not None else txt.encode('utf-8')
+                decl, stmt = mk('"%s"' % txt, False)
+                src = (HEAD + decl + '\n' + stmt + '\n').encode('utf-8')
+                impl, model = progdiff.run_both(c, src)
+                progdiff.compare(c, src, impl, model, 'payload:special-char', project=lambda f, h=hdr: f[h:], times=False)
+                recs = progdiff.pcap_records(impl['file'] or b'')
+                if impl['outcome'][0] != 'success' or len(recs) != 1 or recs[0][1][hdr:] != want:
+                    c.violation('payload:special-char', 'U+%04X in a text literal (%s): the payload is not the source bytes of the literal (%s)' % (cp, name, (recs[0][1][hdr:].hex() if len(recs) == 1 else impl['outcome'][:3])), dict(src=src.decode('utf-8'), want=want.hex()))
+        c.case(('special-char', cp), dict(kind='special-char', cp='U+%04X' % cp))
     # several buffers over EQUAL content (and one over other content), read in turn: each has its own cursor
     for i in range(16 if c.quick else 300):
         r = c.rng.fork('bufio2-%d' % i)
